@@ -853,7 +853,13 @@ impl Allocator {
                     self.ghost_atoms += 1;
                     Ok(self.mk_node(ObjectType::SmallAtom, new_val as usize))
                 } else {
+                    // the slice is not a canonical small integer, so it cannot be
+                    // stored inline: it is copied to the heap, which must respect
+                    // the heap limit like every other heap allocation
                     let start = self.u8_vec.len();
+                    if start + self.ghost_heap + substr.len() > self.heap_limit {
+                        return Err(EvalErr::OutOfMemory);
+                    }
                     let end = start + substr.len();
                     self.u8_vec.extend_from_slice(substr);
                     let idx = self.atom_vec.len();
